@@ -60,11 +60,21 @@ def tasks(tier, seed):
                             'perm': list(reversed(range(k))), 'entry': 'solver' if k == 2 else 'parse'})
             elif k == 1:
                 out.append({'kind': 'parse', 'present': list(sub), 'nextra': [NEXTRA.get(c, 0) for c in sub], 'perm': perm, 'entry': 'solver'})
+    # the refusals do not depend on the other options: the same obligations with -bf / -pc / -twopl -stab present
+    base = [t for t in out if len(t['present']) <= (1 if tier == 'quick' else 2)] + \
+           [t for t in out if len(t['present']) == 2 and tier == 'quick'][::4]
+    OTHERS = [['-bf'], ['-bf', '-pc'], ['-twopl', '-stab'], ['-pc']]
+    for i, t in enumerate(base):
+        out.append(dict(t, other=OTHERS[i % len(OTHERS)]))
+        if i % 2 == 0:
+            out.append(dict(t, other=['-bf'], entry='solver' if t['entry'] == 'parse' else 'parse'))
     if tier == 'quick':
         for sub3 in rng.sample(list(itertools.combinations(CRITS, 3)), 10):
             out.append({'kind': 'parse', 'present': list(sub3), 'nextra': [0, 0, 0], 'perm': [2, 0, 1], 'entry': 'parse'})
     for stab, twopl in itertools.product([False, True], repeat=2):
         out.append({'kind': 'stab', 'stab': stab, 'twopl': twopl})
+        out.append({'kind': 'stab', 'stab': stab, 'twopl': twopl, 'other': ['-bf']})
+        out.append({'kind': 'stab', 'stab': stab, 'twopl': twopl, 'other': ['-pc', '-maxsize', '1']})
     # extras are honoured downstream: the criterion runs with exactly the given extra arguments (incl. explicit zeros)
     two = [s for s in shapes.corner_shapes() if s.lprefs is not None and s.ns >= 2]
     EX = [[('mincost', [0, 1])], [('minsqcost', [0, 1])], [('mincostlsb', [1, 0])], [('mincostlsb', [0, 1])], [('mincost', [2, 0])],
@@ -109,7 +119,7 @@ def run_task(task):
     ns = repo.load('real')
     ns.options_parser.int = S.sym_int
     if task['kind'] == 'stab':
-        argv = ['-f', '/nonexistent/vf_c16.txt', '-na', '2'] + (['-stab'] if task['stab'] else []) + (['-twopl'] if task['twopl'] else [])
+        argv = ['-f', '/nonexistent/vf_c16.txt', '-na', '2'] + list(task.get('other', [])) + (['-stab'] if task['stab'] else []) + (['-twopl'] if task['twopl'] else [])
         res['obligations'] += 1
         out = concrete_outcome(ns, argv, 'solver')
         expect = 'exit2' if (task['stab'] and not task['twopl']) else 'file'
@@ -129,7 +139,7 @@ def run_task(task):
         ext = [[e.fresh_int('x') for _ in range(nextra[i])] for i in range(len(present))]
         e.notes['pos'] = [p.t for p in pos]
         e.notes['ext'] = [[x.t for x in xs] for xs in ext]
-        argv = ['-f', '/nonexistent/vf_c16.txt', '-na', '3']
+        argv = ['-f', '/nonexistent/vf_c16.txt', '-na', '3'] + list(task.get('other', []))
         for i in perm:
             argv.append(e2.FLAGS[present[i]])
             argv.append(e.token(pos[i].t))
@@ -200,7 +210,7 @@ def run_task(task):
             else:
                 vals = [m.eval(q, model_completion=True).as_long() for q in pos]
                 xv = [[m.eval(x, model_completion=True).as_long() for x in xs] for xs in ext]
-                argv = ['-f', '/nonexistent/vf_c16.txt', '-na', '3']
+                argv = ['-f', '/nonexistent/vf_c16.txt', '-na', '3'] + list(task.get('other', []))
                 for i in perm:
                     argv += [e2.FLAGS[present[i]], str(vals[i])] + [str(v) for v in xv[i]]
                 res['cex'].append({'tag': 'parse/%s' % name.split(':')[0].split(' (')[0], 'what': name,
